@@ -555,6 +555,17 @@ def _parse_trav(s):
     return out
 
 
+_BEYOND_SEEN = {}
+
+
+def _beyond(key):
+    """a deviation on a clause beyond the statement: informational counter, printed once at exit"""
+    if not _BEYOND_SEEN:
+        import atexit
+        atexit.register(lambda: print("C10 deviations on clauses beyond the statement (informational, not findings):", dict(sorted(_BEYOND_SEEN.items()))))
+    _BEYOND_SEEN[key] = _BEYOND_SEEN.get(key, 0) + 1
+
+
 def oracle(case):
     out = _oracle(case)
     if case.get("hist"):
@@ -629,14 +640,15 @@ def _oracle(case):
     pl = o.get("poly")
     if pl is not None:
         # export: the polyline has one vertex per vertex (edge trees) / element (face, cell trees) and exactly the parent links
-        # of the tree as segments
+        # of the tree as segments.  The statement of C10 does not name the exported polyline (build_tree_as_polyline is a debug /
+        # visualisation helper): a deviation here is counted and printed as INFORMATIONAL, never reported as a finding of C10
+        # (integrator's decision after round 5; the translated bodies + `polyline_*_has_tree_edges` still tie the export to the source)
         if "err" in pl:
-            out.append({"key": f"C10/{t}/export/raises/{pl['err']}", "what": f"build_tree_as_polyline() of a computed tree raises {pl['err']}: {pl.get('msg')}", "detail": ""})
+            _beyond(f"C10/{t}/export/raises/{pl['err']}")
         else:
             links = sorted([min(c, P[c]), max(c, P[c])] for c in range(n) if P[c] is not None)
             if pl["E"] != links or pl["nv"] != n:
-                out.append({"key": f"C10/{t}/export/polyline-ne-tree", "what": "the polyline exported by build_tree_as_polyline() does not have one vertex per "
-                            "element and the tree's parent links as segments", "detail": f"nv {pl['nv']} (elements {n}) segments {pl['E'][:6]} links {links[:6]}"})
+                _beyond(f"C10/{t}/export/polyline-ne-tree")
     if t != "mst":
         hops = H.bfs_hops(n, adm, root)
         _check_tree(t, n, root, P, C, E, T, S, adm, comp, hops, out)
